@@ -472,7 +472,9 @@ std::map<std::string, Scen> const &scenarios()
        std::optional<SocketUdpAsync> s;
        r.setup([&] { d.emplace(); b.emplace(SocketUdp(loop0()), 1U, 64U); });
        r.step("consume", [&] { s.emplace(std::move(*b), *d, [](BufferPtr, Address) {}); });
-       r.step("op", [&] { (void)s->LocalAddress(); });
+       r.step("op", [&] { if(s) (void)s->LocalAddress(); });
+       // the driver must be usable after the attach, failed or not (no dangling registration)
+       r.step("drive", [&] { d->Step(Duration(0)); });
        r.teardown([&] { s.reset(); b.reset(); d.reset(); });
      }},
     {"tcp_async_attach", [](Run &r) {
@@ -486,6 +488,7 @@ std::map<std::string, Scen> const &scenarios()
        });
        r.step("op", [&] { if(s) (void)s->LocalAddress(); });
        r.step("op", [&] { if(s) (void)s->PeerAddress(); });
+       r.step("drive", [&] { d->Step(Duration(0)); });
        r.teardown([&] { s.reset(); b.reset(); d.reset(); });
      }},
     {"acceptor_async_attach", [](Run &r) {
@@ -495,6 +498,7 @@ std::map<std::string, Scen> const &scenarios()
        r.setup([&] { d.emplace(); a.emplace(loop0()); });
        r.step("consume", [&] { s.emplace(std::move(*a), *d, [](SocketTcp, Address) {}); });
        r.step("op", [&] { if(s) (void)s->LocalAddress(); });
+       r.step("drive", [&] { d->Step(Duration(0)); });
        r.teardown([&] { s.reset(); a.reset(); d.reset(); });
      }},
     {"tcp_async_recv", [](Run &r) {
